@@ -641,63 +641,77 @@ theorem cnt_restrictCore (t : Topo) (p : Params) (t' : Topo) (h : restrictCore t
 def cnt1 (x : RObj) : Nat := cnt f a [x]
 theorem cnt_cons1 (x : RObj) (l : List RObj) : cnt f a (x :: l) = cnt1 f a x + cnt f a l := cnt_cons f a x l
 
-theorem cnt_mergeNode (rc : Bool) (o : RObj) (ns ms ios mis : List Tree) :
+theorem cnt1_congr {x y : RObj} (h : f x = f y) : cnt1 f a x = cnt1 f a y := cnt_single_congr f a h
+
+theorem absorbIf_congr (hm : ∀ o co, f (absorb o co) = f co) (ms : List Tree) (o co : RObj) : f (absorbIf ms o co) = f co := by
+  unfold absorbIf; split
+  · rfl
+  · exact hm o co
+
+/-- `hm`: the attribute is not changed by taking over a parent's complete sets -/
+theorem cnt_mergeNode (hm : ∀ o co, f (absorb o co) = f co) (rc : Bool) (o : RObj) (ns ms ios mis : List Tree) :
     cnt f a (objsT (mergeNode rc o ns ms ios mis)) ≤ cnt f a (objsT (.node o ns ms ios mis)) := by
   unfold mergeNode
   split
-  · cases rc <;>
+  · rename_i co cns cms cios cmis
+    cases rc <;>
       simp only [objsT, objsL, objsL_append, List.append_nil, List.cons_append, cnt_cons1, cnt_append, if_true, if_false,
-        Bool.false_eq_true] <;> omega
+        Bool.false_eq_true, cnt1_congr f a (absorbIf_congr f hm ms o co)] <;> omega
   · exact Nat.le_refl _
 
 mutual
-theorem cnt_mergeT (ps : List Nat) (rc : Bool) : ∀ t, cnt f a (objsT (mergeT ps rc t)) ≤ cnt f a (objsT t)
+theorem cnt_mergeT (hm : ∀ o co, f (absorb o co) = f co) (ps : List Nat) (rc : Bool) :
+    ∀ t, cnt f a (objsT (mergeT ps rc t)) ≤ cnt f a (objsT t)
   | .node o ns ms ios mis => by
     rw [mergeT]
     split
-    · exact cnt_mergeNode f a rc o ns ms ios mis
+    · exact cnt_mergeNode f a hm rc o ns ms ios mis
     · simp only [objsT]
-      have ih := cnt_mergeL ps rc ns
+      have ih := cnt_mergeL hm ps rc ns
       have e1 := cnt_cons f a o (objsL (mergeL ps rc ns) ++ objsL ms ++ objsL ios ++ objsL mis)
       have e2 := cnt_cons f a o (objsL ns ++ objsL ms ++ objsL ios ++ objsL mis)
       simp only [cnt_append] at e1 e2
       omega
-theorem cnt_mergeL (ps : List Nat) (rc : Bool) : ∀ l, cnt f a (objsL (mergeL ps rc l)) ≤ cnt f a (objsL l)
+theorem cnt_mergeL (hm : ∀ o co, f (absorb o co) = f co) (ps : List Nat) (rc : Bool) :
+    ∀ l, cnt f a (objsL (mergeL ps rc l)) ≤ cnt f a (objsL l)
   | [] => by rw [mergeL]; exact Nat.le_refl _
   | t :: ts => by
     rw [mergeL]
     simp only [objsL, cnt_append]
-    have := cnt_mergeT ps rc t
-    have := cnt_mergeL ps rc ts
+    have := cnt_mergeT hm ps rc t
+    have := cnt_mergeL hm ps rc ts
     omega
 end
 
-theorem cnt_ksStep (filters : List Nat) (i : Nat) (st : Tree × List (List RObj)) :
+theorem cnt_ksStep (hm : ∀ o co, f (absorb o co) = f co) (filters : List Nat) (i : Nat) (st : Tree × List (List RObj)) :
     cnt f a (objsT (ksStep filters i st).1) ≤ cnt f a (objsT st.1) := by
   unfold ksStep
   split
   · split
     · exact Nat.le_refl _
     · split
-      · exact cnt_mergeT f a _ _ _
+      · exact cnt_mergeT f a hm _ _ _
       · exact Nat.le_refl _
   · exact Nat.le_refl _
 
-theorem cnt_ksLoop (filters : List Nat) : ∀ (i : Nat) (st : Tree × List (List RObj)),
+theorem cnt_ksLoop (hm : ∀ o co, f (absorb o co) = f co) (filters : List Nat) : ∀ (i : Nat) (st : Tree × List (List RObj)),
     cnt f a (objsT (ksLoop filters i st).1) ≤ cnt f a (objsT st.1)
   | 0, st => by rw [ksLoop]; exact Nat.le_refl _
   | i + 1, st => by
     rw [ksLoop]
-    exact Nat.le_trans (cnt_ksLoop filters i _) (cnt_ksStep f a filters (i + 1) st)
+    exact Nat.le_trans (cnt_ksLoop hm filters i _) (cnt_ksStep f a hm filters (i + 1) st)
 
-/-- level merging never creates an object and never changes one -/
-theorem cnt_keepStructure (filters : List Nat) (t : Tree) : cnt f a (objsT (keepStructure filters t)) ≤ cnt f a (objsT t) := by
+/-- level merging never creates an object and changes nothing but the complete sets of a child that replaces its parent -/
+theorem cnt_keepStructure (hm : ∀ o co, f (absorb o co) = f co) (filters : List Nat) (t : Tree) :
+    cnt f a (objsT (keepStructure filters t)) ≤ cnt f a (objsT t) := by
   unfold keepStructure
-  exact cnt_ksLoop f a filters _ _
+  exact cnt_ksLoop f a hm filters _ _
 
-/-- **whole call**: for every attribute the set clearing never changes, the multiset of its values over the objects after the
-    call is included in the multiset before the call (in particular: no object is created, duplicated or re-typed) -/
-theorem cnt_restrict (t : Topo) (s : CSet) (flags : Nat) (hf : ∀ p o, f (shrinkG p o) = f o) :
+/-- **whole call**: for every attribute that neither the set clearing nor the merge of complete sets changes, the multiset of
+    its values over the objects after the call is included in the multiset before the call (in particular: no object is
+    created, duplicated or re-typed) -/
+theorem cnt_restrict (t : Topo) (s : CSet) (flags : Nat) (hf : ∀ p o, f (shrinkG p o) = f o)
+    (hm : ∀ o co, f (absorb o co) = f co) :
     cnt f a (objsT (restrict t s flags).1.tree) ≤ cnt f a (objsT t.tree) := by
   unfold restrict
   cases hp : plan t s flags with
@@ -707,18 +721,19 @@ theorem cnt_restrict (t : Topo) (s : CSet) (flags : Nat) (hf : ∀ p o, f (shrin
     cases hc : restrictCore t p with
     | none => exact Nat.le_refl _
     | some t' =>
-      exact Nat.le_trans (cnt_keepStructure f a _ _) (cnt_restrictCore f a t p t' hc (hf p))
+      exact Nat.le_trans (cnt_keepStructure f a hm _ _) (cnt_restrictCore f a t p t' hc (hf p))
 
 /-- a history of calls -/
 def runCalls (t : Topo) (calls : List (CSet × Nat)) : Topo := calls.foldl (fun t c => (restrict t c.1 c.2).1) t
 
-theorem cnt_runCalls (hf : ∀ p o, f (shrinkG p o) = f o) : ∀ (calls : List (CSet × Nat)) (t : Topo),
+theorem cnt_runCalls (hf : ∀ p o, f (shrinkG p o) = f o) (hm : ∀ o co, f (absorb o co) = f co) :
+    ∀ (calls : List (CSet × Nat)) (t : Topo),
     cnt f a (objsT (runCalls t calls).tree) ≤ cnt f a (objsT t.tree)
   | [], t => Nat.le_refl _
   | c :: cs, t => by
     unfold runCalls
     rw [List.foldl_cons]
-    exact Nat.le_trans (cnt_runCalls hf cs _) (cnt_restrict f a t c.1 c.2 hf)
+    exact Nat.le_trans (cnt_runCalls hf hm cs _) (cnt_restrict f a t c.1 c.2 hf hm)
 end count
 
 /-! ### exactness under SetsOK: every object handed back has all its sets disjoint from the dropped resources -/
@@ -1221,14 +1236,323 @@ theorem mergeDecision_sound (filters : List Nat) (up down : List RObj) (o1 o2 : 
   simp_all
 
 /-- merging one object with its single child removes exactly one of the two objects and keeps every other object of the
-    subtree unchanged -/
-theorem cnt_mergeNode_exact {α : Type} [DecidableEq α] (f : RObj → α) (a : α) (rc : Bool) (o co : RObj)
-    (cns cms cios cmis ms ios mis : List Tree) :
+    subtree unchanged (the surviving child only takes over the parent's complete sets) -/
+theorem cnt_mergeNode_exact {α : Type} [DecidableEq α] (f : RObj → α) (a : α) (hm : ∀ o co, f (absorb o co) = f co)
+    (rc : Bool) (o co : RObj) (cns cms cios cmis ms ios mis : List Tree) :
     cnt f a (objsT (mergeNode rc o [.node co cns cms cios cmis] ms ios mis)) + cnt1 f a (if rc then co else o) =
       cnt f a (objsT (.node o [.node co cns cms cios cmis] ms ios mis)) := by
   unfold mergeNode
   cases rc <;>
     simp only [objsT, objsL, objsL_append, List.append_nil, List.cons_append, cnt_cons1, cnt_append, if_true, if_false,
-      Bool.false_eq_true] <;> omega
+      Bool.false_eq_true, cnt1_congr f a (absorbIf_congr f hm ms o co)] <;> omega
+
+/-! ### level merging preserves SetsOK and exactness (hwloc fix e57fd49) -/
+
+theorem subset_or_left (a b : Nat) : subset a (a ||| b) = true :=
+  (subset_iff _ _).2 (fun i hi => by rw [Nat.testBit_or, hi]; rfl)
+theorem subset_or_right (a b : Nat) : subset b (a ||| b) = true :=
+  (subset_iff _ _).2 (fun i hi => by rw [Nat.testBit_or, hi]; simp)
+theorem or_subset {a b c : Nat} (ha : subset a c = true) (hb : subset b c = true) : subset (a ||| b) c = true :=
+  (subset_iff _ _).2 (fun i hi => by
+    rw [Nat.testBit_or] at hi
+    rcases Bool.or_eq_true_iff.mp hi with h | h
+    · exact (subset_iff _ _).1 ha i h
+    · exact (subset_iff _ _).1 hb i h)
+theorem minus_or (a b : Nat) (d : CSet) : minus (a ||| b) d = minus a d ||| minus b d := by
+  apply Nat.eq_of_testBit_eq; intro i
+  simp only [testBit_minus, Nat.testBit_or]
+  cases a.testBit i <;> cases b.testBit i <;> cases d.mem i <;> rfl
+
+theorem okL_mono {par par' : RObj} {l : List Tree} (h : okL par l = true)
+    (hc : subset par.ccpuset par'.ccpuset = true) (hn : subset par.cnodeset par'.cnodeset = true) : okL par' l = true := by
+  rw [okL_iff] at h ⊢
+  intro t ht
+  exact ⟨subset_trans (h t ht).1 hc, subset_trans (h t ht).2.1 hn, (h t ht).2.2⟩
+
+theorem okL_append {par : RObj} {a b : List Tree} (ha : okL par a = true) (hb : okL par b = true) : okL par (a ++ b) = true := by
+  rw [okL_iff] at ha hb ⊢
+  intro t ht
+  rcases List.mem_append.1 ht with h | h
+  · exact ha t h
+  · exact hb t h
+
+theorem ok_mergeNode (rc : Bool) (o : RObj) (ns ms ios mis : List Tree) (h : okT (.node o ns ms ios mis) = true) :
+    okT (mergeNode rc o ns ms ios mis) = true ∧
+    subset (mergeNode rc o ns ms ios mis).obj.ccpuset o.ccpuset = true ∧
+    subset (mergeNode rc o ns ms ios mis).obj.cnodeset o.cnodeset = true := by
+  unfold mergeNode
+  split
+  · rename_i co cns cms cios cmis
+    rw [okT_node] at h
+    obtain ⟨h1, h2, h3, h4, h5, h6⟩ := h
+    rw [okL_cons] at h3
+    obtain ⟨c1, c2, c3, _⟩ := h3
+    simp only [Tree.obj] at c1 c2
+    rw [okT_node] at c3
+    obtain ⟨d1, d2, d3, d4, d5, d6⟩ := c3
+    cases rc
+    · -- the child replaces the parent and, if memory children come along, takes over its complete sets
+      simp only [Bool.false_eq_true, if_false, Tree.obj]
+      unfold absorbIf
+      cases ms with
+      | nil =>
+        simp only [List.isEmpty_nil, if_true, List.nil_append]
+        refine ⟨?_, c1, c2⟩
+        rw [okT_node]
+        refine ⟨d1, d2, d3, d4, ?_, ?_⟩
+        · intro x hx; rw [objsL_append, List.mem_append] at hx
+          rcases hx with hx | hx
+          · exact h5 x hx
+          · exact d5 x hx
+        · intro x hx; rw [objsL_append, List.mem_append] at hx
+          rcases hx with hx | hx
+          · exact h6 x hx
+          · exact d6 x hx
+      | cons m ms' =>
+        simp only [List.isEmpty_cons, Bool.false_eq_true, if_false]
+        have e1 : subset co.ccpuset (absorb o co).ccpuset = true := subset_or_left _ _
+        have e2 : subset co.cnodeset (absorb o co).cnodeset = true := subset_or_left _ _
+        have e3 : subset o.ccpuset (absorb o co).ccpuset = true := subset_or_right _ _
+        have e4 : subset o.cnodeset (absorb o co).cnodeset = true := subset_or_right _ _
+        refine ⟨?_, or_subset c1 (subset_refl _), or_subset c2 (subset_refl _)⟩
+        rw [okT_node]
+        refine ⟨subset_trans d1 e1, subset_trans d2 e2, okL_mono d3 e1 e2, okL_append (okL_mono h4 e3 e4) (okL_mono d4 e1 e2), ?_, ?_⟩
+        · intro x hx; rw [objsL_append, List.mem_append] at hx
+          rcases hx with hx | hx
+          · exact h5 x hx
+          · exact d5 x hx
+        · intro x hx; rw [objsL_append, List.mem_append] at hx
+          rcases hx with hx | hx
+          · exact h6 x hx
+          · exact d6 x hx
+    · -- the parent stays and takes the child's children
+      simp only [if_true, Tree.obj]
+      refine ⟨?_, subset_refl _, subset_refl _⟩
+      rw [okT_node]
+      refine ⟨h1, h2, okL_mono d3 c1 c2, okL_append h4 (okL_mono d4 c1 c2), ?_, ?_⟩
+      · intro x hx; rw [objsL_append, List.mem_append] at hx
+        rcases hx with hx | hx
+        · exact h5 x hx
+        · exact d5 x hx
+      · intro x hx; rw [objsL_append, List.mem_append] at hx
+        rcases hx with hx | hx
+        · exact h6 x hx
+        · exact d6 x hx
+  · exact ⟨h, subset_refl _, subset_refl _⟩
+
+theorem ok_merge (ps : List Nat) (rc : Bool) :
+    (∀ t, okT t = true → okT (mergeT ps rc t) = true ∧ subset (mergeT ps rc t).obj.ccpuset t.obj.ccpuset = true ∧
+        subset (mergeT ps rc t).obj.cnodeset t.obj.cnodeset = true) ∧
+    (∀ l, ∀ par : RObj, okL par l = true → okL par (mergeL ps rc l) = true) := by
+  have hnode : ∀ o ns ms ios mis, (∀ par : RObj, okL par ns = true → okL par (mergeL ps rc ns) = true) →
+      (∀ par : RObj, okL par ms = true → okL par (mergeL ps rc ms) = true) →
+      (okT (.node o ns ms ios mis) = true → okT (mergeT ps rc (.node o ns ms ios mis)) = true ∧
+        subset (mergeT ps rc (.node o ns ms ios mis)).obj.ccpuset (Tree.node o ns ms ios mis).obj.ccpuset = true ∧
+        subset (mergeT ps rc (.node o ns ms ios mis)).obj.cnodeset (Tree.node o ns ms ios mis).obj.cnodeset = true) := by
+    intro o ns ms ios mis hn _ hok
+    rw [mergeT]
+    split
+    · exact ok_mergeNode rc o ns ms ios mis hok
+    · simp only [Tree.obj]
+      refine ⟨?_, subset_refl _, subset_refl _⟩
+      rw [okT_node] at hok ⊢
+      exact ⟨hok.1, hok.2.1, hn o hok.2.2.1, hok.2.2.2⟩
+  have hnil : ∀ par : RObj, okL par [] = true → okL par (mergeL ps rc []) = true := by
+    intro par h; rw [mergeL]; exact h
+  have hcons : ∀ t ts, (okT t = true → okT (mergeT ps rc t) = true ∧ subset (mergeT ps rc t).obj.ccpuset t.obj.ccpuset = true ∧
+        subset (mergeT ps rc t).obj.cnodeset t.obj.cnodeset = true) →
+      (∀ par : RObj, okL par ts = true → okL par (mergeL ps rc ts) = true) →
+      (∀ par : RObj, okL par (t :: ts) = true → okL par (mergeL ps rc (t :: ts)) = true) := by
+    intro t ts ht hts par hok
+    rw [okL_cons] at hok
+    rw [mergeL, okL_cons]
+    have := ht hok.2.2.1
+    exact ⟨subset_trans this.2.1 hok.1, subset_trans this.2.2 hok.2.1, this.1, hts par hok.2.2.2⟩
+  exact ⟨tree_indT hnode hnil hcons, tree_indL hnode hnil hcons⟩
+
+theorem ok_ksStep (filters : List Nat) (i : Nat) (st : Tree × List (List RObj)) (h : okT st.1 = true) :
+    okT (ksStep filters i st).1 = true := by
+  unfold ksStep
+  split
+  · split
+    · exact h
+    · split
+      · exact ((ok_merge _ _).1 st.1 h).1
+      · exact h
+  · exact h
+
+theorem ok_ksLoop (filters : List Nat) : ∀ (i : Nat) (st : Tree × List (List RObj)), okT st.1 = true →
+    okT (ksLoop filters i st).1 = true
+  | 0, st, h => by rw [ksLoop]; exact h
+  | i + 1, st, h => by
+    rw [ksLoop]
+    exact ok_ksLoop filters i _ (ok_ksStep filters (i + 1) st h)
+
+/-- **level merging preserves SetsOK** -/
+theorem ok_keepStructure (filters : List Nat) (t : Tree) (h : okT t = true) : okT (keepStructure filters t) = true := by
+  unfold keepStructure
+  exact ok_ksLoop filters _ _ h
+
+/-- **the whole call preserves SetsOK** -/
+theorem ok_restrict (t : Topo) (s : CSet) (flags : Nat) (h : okT t.tree = true) : okT (restrict t s flags).1.tree = true := by
+  unfold restrict
+  cases hp : plan t s flags with
+  | none => exact h
+  | some p =>
+    simp only []
+    cases hc : restrictCore t p with
+    | none => exact h
+    | some t' =>
+      simp only []
+      have hr := restrictCore_root t p t' hc
+      have hk : t'.tree ∈ (restrictTW reorder p t.tree).kept := by
+        have := hr.2.2.2.2; unfold restrictT at this; rw [this]; exact List.mem_singleton.2 rfl
+      exact ok_keepStructure _ _ (((ok_restrictW reorder_perm p).1 t.tree h).1 t'.tree hk).1
+
+theorem ok_runCalls : ∀ (calls : List (CSet × Nat)) (t : Topo), okT t.tree = true → okT (runCalls t calls).tree = true
+  | [], _, h => h
+  | c :: cs, t, h => by
+    unfold runCalls
+    rw [List.foldl_cons]
+    exact ok_runCalls cs _ (ok_restrict t c.1 c.2 h)
+
+/-! the fixed points of "minus the dropped resources" are closed under merging -/
+
+theorem fix_absorb (p : Params) (o co : RObj) (h1 : shrinkU p o = o) (h2 : shrinkU p co = co) :
+    shrinkU p (absorb o co) = absorb o co := by
+  cases o; cases co
+  simp only [shrinkU, shrinkCpu, shrinkNode, absorb, RObj.mk.injEq, true_and] at *
+  obtain ⟨a1, a2, a3, a4, _⟩ := h1
+  obtain ⟨b1, b2, b3, b4, _⟩ := h2
+  refine ⟨b1, ?_, b3, ?_⟩
+  · rw [minus_or, a2, b2]
+  · rw [minus_or, a4, b4]; exact ⟨rfl, trivial⟩
+
+theorem fix_mergeNode (p : Params) (rc : Bool) (o : RObj) (ns ms ios mis : List Tree)
+    (h : ∀ x ∈ objsT (.node o ns ms ios mis), shrinkU p x = x) :
+    ∀ x ∈ objsT (mergeNode rc o ns ms ios mis), shrinkU p x = x := by
+  unfold mergeNode
+  split
+  · rename_i co cns cms cios cmis
+    have ho : shrinkU p o = o := h o (by simp [objsT])
+    have hco : shrinkU p co = co := h co (by simp [objsT, objsL])
+    intro x hx
+    simp only [objsT, objsL, objsL_append, List.append_nil, List.mem_cons, List.mem_append] at hx h
+    rcases hx with rfl | hx
+    · cases rc
+      · simp only [Bool.false_eq_true, if_false]
+        unfold absorbIf; split
+        · exact hco
+        · exact fix_absorb p o co ho hco
+      · exact ho
+    · apply h x
+      rcases hx with ((hx | hx | hx) | hx | hx) | hx | hx
+      · exact Or.inr (Or.inl (Or.inl (Or.inl (Or.inr (Or.inl (Or.inl (Or.inl hx)))))))
+      · exact Or.inr (Or.inl (Or.inl (Or.inr hx)))
+      · exact Or.inr (Or.inl (Or.inl (Or.inl (Or.inr (Or.inl (Or.inl (Or.inr hx)))))))
+      · exact Or.inr (Or.inl (Or.inr hx))
+      · exact Or.inr (Or.inl (Or.inl (Or.inl (Or.inr (Or.inl (Or.inr hx))))))
+      · exact Or.inr (Or.inr hx)
+      · exact Or.inr (Or.inl (Or.inl (Or.inl (Or.inr (Or.inr hx)))))
+  · exact h
+
+/-! ### exactness over the whole call and along histories -/
+
+theorem fix_merge (p : Params) (ps : List Nat) (rc : Bool) :
+    (∀ t, (∀ x ∈ objsT t, shrinkU p x = x) → ∀ x ∈ objsT (mergeT ps rc t), shrinkU p x = x) ∧
+    (∀ l, (∀ x ∈ objsL l, shrinkU p x = x) → ∀ x ∈ objsL (mergeL ps rc l), shrinkU p x = x) := by
+  have hnode : ∀ o ns ms ios mis,
+      ((∀ x ∈ objsL ns, shrinkU p x = x) → ∀ x ∈ objsL (mergeL ps rc ns), shrinkU p x = x) →
+      ((∀ x ∈ objsL ms, shrinkU p x = x) → ∀ x ∈ objsL (mergeL ps rc ms), shrinkU p x = x) →
+      ((∀ x ∈ objsT (.node o ns ms ios mis), shrinkU p x = x) →
+        ∀ x ∈ objsT (mergeT ps rc (.node o ns ms ios mis)), shrinkU p x = x) := by
+    intro o ns ms ios mis hn _ h
+    rw [mergeT]
+    split
+    · exact fix_mergeNode p rc o ns ms ios mis h
+    · intro x hx
+      simp only [objsT, List.mem_cons, List.mem_append] at hx h
+      rcases hx with rfl | ((hx | hx) | hx) | hx
+      · exact h _ (Or.inl rfl)
+      · exact hn (fun y hy => h y (Or.inr (Or.inl (Or.inl (Or.inl hy))))) x hx
+      · exact h x (Or.inr (Or.inl (Or.inl (Or.inr hx))))
+      · exact h x (Or.inr (Or.inl (Or.inr hx)))
+      · exact h x (Or.inr (Or.inr hx))
+  have hnil : (∀ x ∈ objsL [], shrinkU p x = x) → ∀ x ∈ objsL (mergeL ps rc []), shrinkU p x = x := by
+    intro h; rw [mergeL]; exact h
+  have hcons : ∀ t ts, ((∀ x ∈ objsT t, shrinkU p x = x) → ∀ x ∈ objsT (mergeT ps rc t), shrinkU p x = x) →
+      ((∀ x ∈ objsL ts, shrinkU p x = x) → ∀ x ∈ objsL (mergeL ps rc ts), shrinkU p x = x) →
+      ((∀ x ∈ objsL (t :: ts), shrinkU p x = x) → ∀ x ∈ objsL (mergeL ps rc (t :: ts)), shrinkU p x = x) := by
+    intro t ts ht hts h x hx
+    rw [mergeL] at hx
+    simp only [objsL, List.mem_append] at hx h
+    rcases hx with hx | hx
+    · exact ht (fun y hy => h y (Or.inl hy)) x hx
+    · exact hts (fun y hy => h y (Or.inr hy)) x hx
+  exact ⟨tree_indT hnode hnil hcons, tree_indL hnode hnil hcons⟩
+
+theorem fix_ksStep (p : Params) (filters : List Nat) (i : Nat) (st : Tree × List (List RObj))
+    (h : ∀ x ∈ objsT st.1, shrinkU p x = x) : ∀ x ∈ objsT (ksStep filters i st).1, shrinkU p x = x := by
+  unfold ksStep
+  split
+  · split
+    · exact h
+    · split
+      · exact (fix_merge p _ _).1 st.1 h
+      · exact h
+  · exact h
+
+theorem fix_ksLoop (p : Params) (filters : List Nat) : ∀ (i : Nat) (st : Tree × List (List RObj)),
+    (∀ x ∈ objsT st.1, shrinkU p x = x) → ∀ x ∈ objsT (ksLoop filters i st).1, shrinkU p x = x
+  | 0, st, h => by rw [ksLoop]; exact h
+  | i + 1, st, h => by
+    rw [ksLoop]
+    exact fix_ksLoop p filters i _ (fix_ksStep p filters (i + 1) st h)
+
+theorem fix_keepStructure (p : Params) (filters : List Nat) (t : Tree) (h : ∀ x ∈ objsT t, shrinkU p x = x) :
+    ∀ x ∈ objsT (keepStructure filters t), shrinkU p x = x := by
+  unfold keepStructure
+  exact fix_ksLoop p filters _ _ h
+
+/-- an object without its complete sets (level merging may or the parent's complete sets into a surviving child) -/
+def noComplete (o : RObj) : RObj := { o with ccpuset := 0, cnodeset := 0 }
+
+theorem noComplete_absorb (p : Params) (o co : RObj) : noComplete (shrinkU p (absorb o co)) = noComplete (shrinkU p co) := by
+  cases o; cases co; rfl
+
+theorem restrict_ok_eq (t : Topo) (s : CSet) (flags : Nat) (p : Params) (t' : Topo) (hp : plan t s flags = some p)
+    (hc : restrictCore t p = some t') :
+    (restrict t s flags).1.tree = keepStructure t'.filters t'.tree ∧ (restrict t s flags).2 = .ok := by
+  unfold restrict
+  rw [hp]
+  simp only [hc]
+  constructor <;> first | rfl | trivial
+
+/-- **exact sets after the whole call** (tree recursion + level merging), under SetsOK: every object has all four sets free
+    of dropped resources; and the multiset of objects, complete sets left aside, is included in the multiset of "old object
+    with cpuset and nodeset minus the dropped resources" -/
+theorem restrict_exact (t : Topo) (s : CSet) (flags : Nat) (p : Params) (hp : plan t s flags = some p)
+    (hret : (restrict t s flags).2 = .ok) (hok : okT t.tree = true) (a : RObj) :
+    (∀ x ∈ objsT (restrict t s flags).1.tree, shrinkU p x = x) ∧
+    cnt noComplete a (objsT (restrict t s flags).1.tree) ≤ cnt (fun x => noComplete (shrinkU p x)) a (objsT t.tree) := by
+  cases hc : restrictCore t p with
+  | none =>
+    have : (restrict t s flags).2 = .rootRemoved := by unfold restrict; rw [hp]; simp only [hc]
+    rw [this] at hret; exact absurd hret (by decide)
+  | some t' =>
+    have he := (restrict_ok_eq t s flags p t' hp hc).1
+    rw [he]
+    have hcore := restrictCore_exact t p t' hc hok a
+    have hfix := fix_keepStructure p t'.filters t'.tree hcore.1
+    refine ⟨hfix, ?_⟩
+    have e : cnt noComplete a (objsT (keepStructure t'.filters t'.tree)) =
+        cnt (fun x => noComplete (shrinkU p x)) a (objsT (keepStructure t'.filters t'.tree)) := by
+      unfold cnt
+      congr 1
+      exact List.map_congr_left (fun x hx => by rw [hfix x hx])
+    rw [e]
+    exact Nat.le_trans
+      (cnt_keepStructure (fun x => noComplete (shrinkU p x)) a (fun o co => noComplete_absorb p o co) _ _)
+      (cnt_restrictCore (fun x => noComplete (shrinkU p x)) a t p t' hc (fun o => by rw [shrinkU_shrinkG]))
 
 end Hw.Topo.Restrict
